@@ -2589,3 +2589,225 @@ def q05g(ctx, n=2, ranged=False, realisable=False, all_counts=False):
                         max_models=ctx.cap('Q05g'), second=ctx.second, workdir=ctx.workdir,
                         second_timeout_s=getattr(ctx, 'second_timeout', 60), block_vars=cs)
     return ob
+
+
+# =========================================================================== Q02t  the whole of build(): the language of the printed pattern
+class PatternParser:
+    """parses the pattern text grex prints -- a list of items, each a concrete code point or a symbolic one (a literal
+    character of a test case) -- and returns its (finite) language as a list of words of code-point terms.
+    Grammar: alternation of concatenations of atoms with ? {n} {m,n}; atoms: groups, character classes, escapes, literals."""
+
+    def __init__(self, ex, st, items, oracle=None):
+        self.ex, self.st, self.items, self.i, self.oracle = ex, st, list(items), 0, oracle
+
+    def peek(self):
+        return concrete(self.items[self.i]) if self.i < len(self.items) else None
+
+    def at(self, text):
+        cs = [ord(c) for c in text]
+        return cps(self.items[self.i:self.i + len(cs)]) == cs
+
+    def parse(self):
+        start = end = False
+        if self.at('^'):
+            self.i += 1
+            start = True
+        words = self.alternation()
+        if self.at('$') and self.i == len(self.items) - 1:
+            self.i += 1
+            end = True
+        if self.i != len(self.items):
+            raise Inconclusive('pattern text not fully parsed at position %d' % self.i)
+        return words, start, end
+
+    def alternation(self):
+        out = self.concatenation()
+        while self.at('|'):
+            self.i += 1
+            out = out + self.concatenation()
+        return out
+
+    def concatenation(self):
+        words = [[]]
+        while self.i < len(self.items):
+            c = self.peek()
+            if c in (ord('|'), ord(')')) or (c == ord('$') and self.i == len(self.items) - 1):
+                break
+            a = self.quantified()
+            if len(words) * len(a) > 5000:
+                raise Inconclusive('pattern language too large')
+            words = [w + x for w in words for x in a]
+        return words
+
+    def quantified(self):
+        a = self.atom()
+        if self.at('?'):
+            self.i += 1
+            return a + [[]]
+        if self.at('*') or self.at('+'):
+            raise Inconclusive('unbounded quantifier in the printed pattern')
+        if self.at('{'):
+            j = self.i + 1
+            txt = ''
+            while j < len(self.items) and concrete(self.items[j]) is not None and chr(concrete(self.items[j])) in '0123456789,':
+                txt += chr(concrete(self.items[j]))
+                j += 1
+            if j < len(self.items) and concrete(self.items[j]) == ord('}') and txt:
+                self.i = j + 1
+                lo, hi = (int(txt), int(txt)) if ',' not in txt else tuple(int(x) for x in txt.split(','))
+                out = []
+                for k in range(lo, hi + 1):
+                    ws = [[]]
+                    for _ in range(k):
+                        ws = [w + x for w in ws for x in a]
+                    out += ws
+                return out
+        return a
+
+    def atom(self):
+        c = self.peek()
+        if self.at('(?:'):
+            self.i += 3
+            w = self.alternation()
+            if not self.at(')'):
+                raise Inconclusive('unbalanced group in the printed pattern')
+            self.i += 1
+            return w
+        if c == ord('('):
+            self.i += 1
+            w = self.alternation()
+            if not self.at(')'):
+                raise Inconclusive('unbalanced group in the printed pattern')
+            self.i += 1
+            return w
+        if c == ord('['):
+            self.i += 1
+            members = []
+            while not self.at(']'):
+                if self.i >= len(self.items):
+                    raise Inconclusive('unterminated character class')
+                lo = self.class_char()
+                if self.at('-') and not cps(self.items[self.i + 1:self.i + 2]) == [ord(']')]:
+                    self.i += 1
+                    hi = self.class_char()
+                    k = None
+                    for d in range(0, 64):
+                        if self.ex.must(self.st, hi == lo + BV(d, 32)):
+                            k = d
+                            break
+                    if k is None:
+                        raise Inconclusive('character-class range of undetermined width')
+                    members += [z3.simplify(lo + BV(d, 32)) for d in range(k + 1)]
+                else:
+                    members.append(lo)
+            self.i += 1
+            return [[m] for m in members]
+        if c == 92:
+            return [[self.escape()]]
+        if c is not None and chr(c) in '.+*?|)^$]{}':
+            if chr(c) in ']}' :
+                self.i += 1
+                return [[BV(c, 32)]]
+            raise Inconclusive('unexpected metacharacter %r in the printed pattern at %d' % (chr(c), self.i))
+        x = self.items[self.i]
+        self.i += 1
+        return [[x]]
+
+    def class_char(self):
+        if self.peek() == 92:
+            return self.escape()
+        x = self.items[self.i]
+        self.i += 1
+        return x
+
+    def escape(self):
+        self.i += 1
+        c = self.peek()
+        if c is None and self.i < len(self.items) and self.oracle is not None:
+            # backslash + symbolic character: a literal iff the path condition confines it to characters for which the
+            # regex crate reads "\\c" as the literal c (oracle table)
+            x = self.items[self.i]
+            if self.ex.must(self.st, in_ranges(x, self.oracle['lit_backslash_ok'])):
+                self.i += 1
+                return x
+        if c is None:
+            raise Inconclusive('backslash followed by a symbolic character in the printed pattern')
+        ch = chr(c)
+        if ch == 'u' and self.at('u{'):
+            j = self.i + 2
+            hx = ''
+            while j < len(self.items) and concrete(self.items[j]) is not None and chr(concrete(self.items[j])) != '}':
+                hx += chr(concrete(self.items[j]))
+                j += 1
+            self.i = j + 1
+            return BV(int(hx, 16), 32)
+        self.i += 1
+        if ch in 'dDsSwWbB':
+            raise Inconclusive('shorthand class in the printed pattern')
+        return BV({'n': 10, 'r': 13, 't': 9, 'v': 11, 'f': 12}.get(ch, c), 32)
+
+
+@guarded
+def q02t(ctx, lens=(2, 2), with_empty=False, domain='letters'):
+    """Q02t: the whole of build() with default settings: the language of the PRINTED pattern is exactly the set of test cases"""
+    ob = Obligation('Q02t[%s%s]%s' % (','.join(map(str, lens)), '+empty' if with_empty else '', '' if domain == 'letters' else '[%s]' % domain), q02t.__doc__)
+    dom_txt = {'letters': 'letters a..z', 'ascii': 'printable ASCII (U+0020..U+007E, so every regex metacharacter) plus \\\\n and \\\\t'}[domain]
+    ob.domain = ('%d test cases of %s characters, each %s (every equality pattern)%s; default settings' % (
+        len(lens), '/'.join(map(str, lens)), dom_txt, ' plus the empty test case' if with_empty else ''))
+    ob.bound = 'exactly these lengths'
+    cases = [[z3.BitVec('s%d_%d' % (i, j), 32) for j in range(n)] for i, n in enumerate(lens)]
+    allv = [v for c in cases for v in c]
+    if domain == 'letters':
+        assume = [z3.And(z3.UGE(v, BV(0x61, 32)), z3.ULE(v, BV(0x7A, 32))) for v in allv]
+    else:
+        assume = [z3.Or(z3.And(z3.UGE(v, BV(0x20, 32)), z3.ULE(v, BV(0x7E, 32))), v == BV(10, 32), v == BV(9, 32)) for v in allv]
+    fields = ctx.mir.structs.get('RegExpConfig')
+    off = {k: (BV(1, 32) if k.startswith('minimum_') else z3.BoolVal(False)) for k in fields}
+    cfgv = config_value(ctx, off)
+    ex = ctx.new_exec([(P(r'^<str as UnicodeSegmentation>::graphemes$'), m_graphemes_per_letter)] + make_gc_models(ctx))
+    st = State(pc=list(assume))
+    cfg = st.ref(cfgv)
+    inputs = ([[]] if with_empty else []) + cases
+    v = st.ref(ListV([SymStr(c) for c in inputs]))
+    f_from = ctx.mir.one_fn(r'^regexp::<impl at [^>]*>::from$')
+    f_fmt = display_fmt_name(ctx, 'RegExp')
+    t0 = time.time()
+    bads = []
+    npaths = 0
+    for o in ex.run_fn(st, f_from, [v, cfg]):
+        if o.panic:
+            bads.append(z3.And(*o.st.pc))
+            continue
+        buf = o.st.ref(SymStr(()))
+        for o2 in ex.run_fn(o.st, f_fmt, [o.st.ref(o.val), buf]):
+            npaths += 1
+            if o2.panic:
+                bads.append(z3.And(*o2.st.pc))
+                ob.classes_seen['panic'] = ob.classes_seen.get('panic', 0) + 1
+                continue
+            items = list(o2.st.load(buf).items)
+            words, start, end = PatternParser(ex, o2.st, items, ctx.oracle).parse()
+            cls = re.sub(r'<[^>]*>', 'x', ''.join(chr(concrete(x)) if concrete(x) is not None else 'x' for x in items))
+            ob.classes_seen[cls] = ob.classes_seen.get(cls, 0) + 1
+            if not (start and end):
+                bads.append(z3.And(*o2.st.pc))
+                continue
+            bads.append(z3.And(*o2.st.pc, z3.Not(set_eq(inputs, words))))
+    ctx.finish(ob, ex, t0)
+    ob.paths = npaths
+    if len(ob.classes_seen) > 40:
+        ob.classes_seen = dict(sorted(ob.classes_seen.items(), key=lambda kv: -kv[1])[:40])
+
+    def blocker(m):
+        vals = [m.eval(c, model_completion=True).as_long() for c in allv]
+        if domain != 'letters':
+            return z3.Or(*[c != BV(x, 32) for c, x in zip(allv, vals)])
+        parts = []
+        for i in range(len(allv)):
+            for j in range(i + 1, len(allv)):
+                parts.append((allv[i] == allv[j]) if vals[i] == vals[j] else (allv[i] != allv[j]))
+        return z3.Not(z3.And(*parts)) if parts else z3.BoolVal(False)
+    ob.verdict = decide(ob.qid, assume + ob.defs, z3.Or(*bads) if bads else z3.BoolVal(False), allv, all_sat=True,
+                        max_models=ctx.cap('Q02t'), second=ctx.second, workdir=ctx.workdir,
+                        second_timeout_s=getattr(ctx, 'second_timeout', 60), blocker=blocker)
+    return ob
